@@ -11,6 +11,7 @@ import (
 	"net/http"
 	"sort"
 	"strings"
+	"time"
 	"testing"
 
 	"github.com/ipni/go-libipni/dhash"
@@ -871,6 +872,7 @@ var findHTTPConfigs = []string{
 	"metadata-only,providers-url-partial", "providers-url-partial,metadata-only",
 	"metadata-only,providers-url-unreachable", "metadata-only,providers-url-partial,preload",
 	"legacy-wrapper-full", "legacy-wrapper-partial,metadata-only",
+	"pcache-ttl-0", "pcache-ttl-1ns,providers-url-full", "pcache-ttl-neg", "pcache-ttl-1h,preload",
 }
 
 func checkFindHTTPCfg(r *vp.Recorder, key, cfg string, mhs []multihash.Multihash, recs []record, unknown multihash.Multihash) {
@@ -977,6 +979,14 @@ func checkFindHTTPCfg(r *vp.Recorder, key, cfg string, mhs []multihash.Multihash
 			copts = append(copts, client.WithMetadataOnly(true))
 		case "preload":
 			copts = append(copts, client.WithPcachePreload(true))
+		case "pcache-ttl-0":
+			copts = append(copts, client.WithPcacheTTL(0))
+		case "pcache-ttl-1ns":
+			copts = append(copts, client.WithPcacheTTL(time.Nanosecond))
+		case "pcache-ttl-neg":
+			copts = append(copts, client.WithPcacheTTL(-time.Minute))
+		case "pcache-ttl-1h":
+			copts = append(copts, client.WithPcacheTTL(time.Hour))
 		case "providers-url-full", "providers-url-partial", "providers-url-unreachable":
 			copts = append(copts, client.WithProvidersURL("http://"+strings.Replace(o, "providers-url", "providers", 1)+".test:80"))
 		case "legacy-wrapper-full", "legacy-wrapper-partial":
